@@ -315,6 +315,41 @@ theorem source_ema_timed_eq_model (k : Kind) (ln2 : FVal) (expf : FVal → FVal)
   (LoopBridge.ema_grouped_timed_eq k ln2 expf halflife decay hdec hdec0 codes vals times msk masked ng ml hlen hlent
     htimes).2 i hi
 
+/-- **from the first valid observation on, the translated grouped kernel on a single group and the translated ungrouped
+kernel `_ema_adjusted` produce the same cell** - a statement about two functions of the current source -/
+theorem source_single_group_eq_ungrouped (k : Kind) (β : Rat) (hβ : 0 ≤ β) (vals : List FVal) (ng ml : Int)
+    (i : Nat) (hi : i < vals.length)
+    (hvalid : ∃ j, j < i + 1 ∧ ∃ v, (vals.map (fun v => LoopBridge.obsOf v false))[j]? = some (some v)) :
+    (Generated.Loops.ema_grouped k (List.replicate vals.length (0 : Int)).length (arrOf (List.replicate vals.length 0) 0)
+        vals.length (arrOf vals .nan) (.q (1 - β)) ng false ml (arrOf [] true)).1 (i : Int) =
+      (Generated.Loops.ema_adjusted k vals.length (arrOf vals .nan) (.q (1 - β))).1 (i : Int) := by
+  have hu := (LoopBridge.ema_adjusted_eq k β hβ vals i hi hvalid).2
+  have hg := (LoopBridge.ema_grouped_eq k β hβ (List.replicate vals.length 0) vals [] false ng ml (by simp)).2 i (by simpa using hi)
+  rw [hu, hg]
+  -- the model's grouped output at row i of an all-zero code column
+  have hrows : LoopBridge.emaRows (List.replicate vals.length 0) vals false [] =
+      (vals.map (fun v => LoopBridge.obsOf v false)).map (fun x => ((0 : Int), x)) := by
+    simp only [LoopBridge.emaRows, List.length_replicate, List.map_map]
+    have := GV.list_eq_map_range vals FVal.nan
+    conv => rhs; rw [this]
+    simp only [List.map_map]
+    apply List.map_congr_left
+    intro j hj
+    have hj' : j < vals.length := by simpa using hj
+    simp [List.getD_eq_getElem?_getD, hj', List.getElem?_replicate]
+  rw [hrows]
+  generalize hxs : vals.map (fun v => LoopBridge.obsOf v false) = xs
+  have hil : i < xs.length := by rw [← hxs]; simpa using hi
+  have hrow : (xs.map (fun x => ((0 : Int), x)))[i]? = some (0, xs[i]) := by simp [hil]
+  have hspec := grouped_eq_single_group β (xs.map (fun x => ((0 : Int), x))) i _ hrow (by simp)
+  have hgv : groupVals ((xs.map (fun x => ((0 : Int), x))).take i) 0 = xs.take i := by
+    simp [groupVals, ← List.map_take, List.filter_map, Function.comp_def]
+  rw [LoopBridge.emaCell, hspec, hgv]
+  have hgd : xs.getD i none = xs[i] := by rw [List.getD_eq_getElem?_getD, List.getElem?_eq_getElem hil]; rfl
+  rw [hgd]
+  simp only [run, LoopBridge.runE]
+  cases emaOut (List.foldl (emaStep β) eInit (List.take i xs)) xs[i] <;> rfl
+
 /-- non-vacuity: alpha = 1/2, two interleaved groups, a NaN, a null key, a masked row -/
 example :
     let r := Generated.Loops.ema_grouped .f 6 (arrOf [0, 1, -1, 0, 0, 1] 0) 6
